@@ -361,6 +361,14 @@ def colless (norm : Norm) (t : T) : Except Err Frac :=
     | .pdaSq => fdiv (Frac.ofNat (c * c)) (Frac.ofNat (n * n * n))
     | _ => .error .type
 
+/-- the Yule normalisation of Colless with the two transcendental quantities handed in: `lnN` for `math.log(num_leaves)` and
+    `k` for `EULERS_CONSTANT - 1.0 - math.log(2)`:
+    `float(colless - (num_leaves * log(num_leaves)) - (num_leaves * k)) / num_leaves` -/
+def collessYuleWith (lnN k : Frac) (t : T) : Except Err Frac :=
+  match collessAcc t with
+  | .error e => .error e
+  | .ok (n, c) => fdiv (Frac.ofNat c - Frac.ofNat n * lnN - Frac.ofNat n * k) (Frac.ofNat n)
+
 mutual
 /-- `(nd_mi[nd], b1 accumulated over the subtree)` for a non-root node -/
 def b1Acc : T → Nat × Frac
